@@ -38,6 +38,10 @@ def judgeC01 (o : Obs) : Verdict :=
         let t0 := b.time
         let t1 := e.time
         let done := e.tag == "awaited"
+        -- a wait that is still pending when `run()` returned normally (`stuck`): quiescence was reached, so a wait for a delay or a
+        -- date that had not passed when it began can only be pending if its wake-up was lost
+        let lost := e.tag == "stuck" && o.crash == [] && (k == 0 || k == 1 || (k == 2 && x ≥ t0) || k == 5)
+        fail lost s!"a wait (kind {k}, {x}) begun at {t0} was never resumed although the run went on to quiescence" ++
         if k == 0 then fail (done && t1 != t0 + x) s!"delay: waited from {t0} for {x}, resumed at {t1}"
         else if k == 1 then fail (done && t1 != max t0 x) s!"time >= {x}: asked at {t0}, resumed at {t1}"
         else if k == 2 then fail (done && (x < t0 || t1 != x)) s!"time == {x}: asked at {t0}, resumed at {t1}"
